@@ -46,7 +46,12 @@ def wipe_sequence(fb, chk):
         nm = ef['callee'].split('::')[-1]
         if nm in ('write_u8', 'write_u16', 'write_u32', 'write_u64', 'write_i32', 'write_i64'):
             v = ef['args'][1]
-            val = v[1] if psi.is_int_const(v) else ('segsize' if 'segsize' in fmt(v) else fmt(v)[:60])
+            core_v = arith.strip_casts(v)
+            if core_v[0] == 't' and core_v[1] == 'field' and core_v[2][0][0] == 't' and core_v[2][0][1] == 'as':
+                inner = core_v[2][0][2][0]
+                if inner[0] == 't' and inner[1] == 'call' and inner[2][0].endswith('try_into') and len(inner[2]) == 3:
+                    core_v = arith.strip_casts(inner[2][2])
+            val = v[1] if psi.is_int_const(v) else ('segsize' if core_v == ('sym', 'segsize') else fmt(v)[:80])
             endian = [crate_ty for crate_ty in ((ef['fn'] or {}).get('targs') or [])]
             seq.append((int(nm.split('_')[1][1:]) // 8, val))
         elif nm == 'write_all':
@@ -101,6 +106,12 @@ def check_new(fb, chk, rule_prefix='C04'):
             if term[0] == 't' and term[1] == 'discr' and term[2][0][0] == 't' and term[2][0][1] == 'call' and \
                     term[2][0][2][0].endswith('::is_usable_segment') and op == '==':
                 failed = (val == 1)
+            if term[0] == 't' and term[1] == 'Eq' and term[2][0][0] == 't' and term[2][0][1] == 'discr' and psi.is_int_const(term[2][1]):
+                inner = term[2][0][2][0]
+                if inner[0] == 't' and inner[1] == 'call' and inner[2][0].endswith('::is_usable_segment'):
+                    t = (op == '!=' and set(val) == {0}) or (op == '==' and val == 1)
+                    failed = t if term[2][1][1] == 1 else not t
+                    chk.ob(r1, 'new:wipe-decided-by-the-probe', True, p.where[2], 'the wipe decision tests the result of is_usable_segment')
         if wipes:
             n_wipe += 1
             chk.ob(r1, 'new:wipe-only-when-unusable', failed is True and bool(probe) and probe[0] in calls and
